@@ -225,8 +225,26 @@ def checkC04 (c : Case) (t : Transcript) : Option String := Id.run do
     | .error msg => return some msg
   return none
 
+mutual
+/-- the leaf sets of the owned groups inside a shape -/
+def ownedGroups : Shape → List (List LockId)
+  | .mutex _ => []
+  | .rwlock _ => []
+  | .seq ss => ownedGroupsL ss
+  | .poisonable _ s => ownedGroups s
+  | .boxed s => ownedGroups s
+  | .refc s => ownedGroups s
+  | .retry s => ownedGroups s
+  | .owned _ s => declLeaves s :: ownedGroups s
+def ownedGroupsL : List Shape → List (List LockId)
+  | [] => []
+  | s :: ss => ownedGroups s ++ ownedGroupsL ss
+end
+
 /-- C09: during a session on a retrying collection every blocking raw acquisition is issued
-while the caller holds nothing. -/
+while the caller holds nothing. (A blocking acquisition *inside* an owned group that is a member
+of the collection, holding only earlier leaves of that group, is finding D17: the group is one
+lock for the retrying algorithm and is taken in order, blocking.) -/
 def checkC09 (c : Case) (t : Transcript) : Option String := Id.run do
   let C : Ctx := { W := c.world, colls := c.colls, outer := c.outer }
   let rec isRetryTop : Shape → Bool
@@ -247,6 +265,11 @@ def checkC09 (c : Case) (t : Transcript) : Option String := Id.run do
         match e with
         | .raw k x .ok _ | .raw k x .panic _ =>
           if kindBlocking k && !st.held.isEmpty then
+            let inOneGroup := match s with
+              | .ses ses => (ownedGroups (C.shape ses.coll)).any fun g => g.contains x && st.held.all fun h => g.contains h.1
+              | _ => false
+            if inOneGroup then
+              return some s!"D17: blocking acquisition of {x} while holding {repr st.held}, all leaves of one owned group that is a member of the retrying collection"
             return some s!"blocking acquisition of {x} while holding {repr st.held}"
         | _ => pure ()
       match holdStep st e with
@@ -583,9 +606,10 @@ def checkC10 (c : Case) (t : Transcript) : Option String := Id.run do
                 | _, _ => pure ()
         if userPanic && ses.mode == .excl then
           let isScoped := ses.api == .scoped || ses.api == .scopedTry
-          let why := if isScoped && (isPoisonableTop S).isNone then "panic in the scoped closure of a collection containing it"
-            else if isScoped then "panic in its own scoped closure" else "panic while a guard was alive"
           for p in ps do
+            let why := if isScoped && (isPoisonableTop S).isNone then "panic in the scoped closure of a collection containing it"
+              else if isScoped && isPoisonableTop S != some p then "panic in the scoped closure of a Poisonable containing it"
+              else if isScoped then "panic in its own scoped closure" else "panic while a guard was alive"
             if !(must.any (·.1 == p)) then must := (p, why) :: must
     | .isPoisoned cc =>
       match isPoisonableTop (C.shape cc) with
